@@ -140,3 +140,16 @@ pub fn admits(ty: &Value, occ: &Node) -> bool {
     }
     true
 }
+
+fn local(n: &str) -> &str {
+    n.split_once(':').map(|x| x.1).unwrap_or(n)
+}
+
+/// two sibling element names, or two attribute names of one element, differ only by namespace prefix
+/// (such documents are outside the domain of C01 and of the properties that quantify "as in C01")
+pub fn prefix_clash(n: &Node) -> bool {
+    let clash = |names: Vec<&str>| names.iter().any(|a| names.iter().any(|b| a != b && local(a) == local(b)));
+    clash(n.kids.iter().map(|k| k.name.as_str()).collect())
+        || clash(n.attrs.iter().map(|a| a.as_str()).collect())
+        || n.kids.iter().any(prefix_clash)
+}
